@@ -1,6 +1,7 @@
 (* C03 — Each client call gets the reply to its own request. Theorems only; proofs in Proofs/ClientConnP.v *)
 From Coq Require Import List Bool Arith.
-From Sftp Require Import Conn.ClientConn Conn.ConnTrace Proofs.ClientConnP Proofs.ConnTraceP.
+From Coq Require Import NArith.
+From Sftp Require Import Conn.WireMutex Proofs.WireMutexP Conn.IdWrap Conn.ClientConn Conn.ConnTrace Proofs.ClientConnP Proofs.ConnTraceP Proofs.IdWrapP.
 Import ListNotations.
 
 (* for every number of concurrent callers and every interleaving of their steps with the receiver's deliveries (replies
@@ -28,8 +29,52 @@ Theorem C03_invariant : forall n tr s, crun (cinit n) tr = Some s -> cinv s.
 Proof. exact cinv_run. Qed.
 Print Assumptions C03_invariant.
 
-(* "each request reaches the wire as one contiguous frame" is the connection mutex around header+payload writes: in the
-   model a frame is one label (SendOK); the harness checks the consequence on the real byte stream (family c03). *)
+(* ===== "each request reaches the wire as one contiguous frame" (Conn/WireMutex.v) =====
+   conn.sendPacket takes the connection mutex, writes the packet with one Write (header and payload in one buffer) or two
+   (WRITE, SETSTAT, FSETSTAT: header, then payload) and releases the mutex. For every number of senders and every
+   interleaving of their lock / write / unlock steps the sequence of Write calls reads as whole packets: nothing foreign
+   ever lies between a header and its payload, and whenever the mutex is free the wire ends on a packet boundary. The c03
+   family records the Write calls the real client makes under concurrency and runs the same `scan` over them. *)
+Theorem C03_wire_is_whole_packets : forall n tr w, wrun true (w0 n) tr = Some w ->
+  exists p, scan (WireMutex.wire w) None = Some p /\ (WireMutex.holder w = None -> p = None).
+Proof. exact wire_is_whole_packets. Qed.
+Print Assumptions C03_wire_is_whole_packets.
+
+(* without the mutex around one-part packets the clause fails: a foreign Write lands inside a two-part packet *)
+Theorem C03_unlocked_one_part_refuted :
+  exists tr w, wrun false (w0 2) tr = Some w /\ scan (WireMutex.wire w) None = None.
+Proof. exact unlocked_one_part_refuted. Qed.
+Print Assumptions C03_unlocked_one_part_refuted.
+
+(* ===== 32-bit request ids (Conn/IdWrap.v) =====
+   The LTS numbers requests 1, 2, 3, ... without a bound; Client.nextID is atomic.AddUint32, so the request with issue
+   number i carries (c0 + i) mod 2^32 where c0 is where the counter stood. Any 2^32 consecutive calls get pairwise
+   distinct ids, across the wrap as well; the distinctness the LTS proves carries over to the wire whenever the
+   outstanding requests span less than 2^32 issue numbers - and only then (window_is_needed): a request that stays
+   outstanding while 2^32 others are issued on the same connection meets its own id again, in the code as in the model.
+   The ids family starts the counter shortly before the wrap (hook VerifSetNextID) and compares the ids the peer saw
+   with `ids_from`. *)
+Theorem C03_consecutive_ids_distinct : forall k c0, (c0 < idmod)%N -> (N.of_nat k <= idmod)%N -> NoDup (ids_from c0 k).
+Proof. exact ids_from_nodup. Qed.
+Print Assumptions C03_consecutive_ids_distinct.
+
+Theorem C03_inflight_wire_ids_distinct : forall n tr s c0, crun (cinit n) tr = Some s ->
+  (forall a b, In a (map fst (inflight s)) -> In b (map fst (inflight s)) -> (N.of_nat a < N.of_nat b + idmod)%N) ->
+  NoDup (map (wire_id c0) (map fst (inflight s))).
+Proof. exact inflight_wire_ids_distinct. Qed.
+Print Assumptions C03_inflight_wire_ids_distinct.
+
+Theorem C03_caller_wire_ids_distinct : forall n tr s c1 c2 st1 st2 i1 i2 c0, crun (cinit n) tr = Some s ->
+  cstate_of c1 (callers s) = Some st1 -> cstate_of c2 (callers s) = Some st2 -> has_id st1 i1 -> has_id st2 i2 ->
+  c1 <> c2 -> (N.of_nat i1 < N.of_nat i2 + idmod)%N -> (N.of_nat i2 < N.of_nat i1 + idmod)%N ->
+  wire_id c0 i1 <> wire_id c0 i2.
+Proof. exact caller_wire_ids_distinct. Qed.
+Print Assumptions C03_caller_wire_ids_distinct.
+
+Theorem C03_window_is_needed : forall c0 i j, (N.of_nat j = N.of_nat i + idmod)%N -> wire_id c0 i = wire_id c0 j.
+Proof. exact window_is_needed. Qed.
+Print Assumptions C03_window_is_needed.
+
 (* ===== the tie to conn.go: trace acceptance (family cct) =====
    The instrumented connection reports P (putChannel), S (send result), g (getChannel), B (broadcast), T (result taken);
    P, g and B inside the clientConn mutex. `caccept_trace` replays them; every candidate explanation of an accepted trace
